@@ -88,20 +88,6 @@ theorem async_try_success_arity (σ : World) (parent : Option String) (p : Input
   loop (`planRun` puts the handler there).  The statement holds from any step `k` and any state `vals` the run may have
   reached, for every schedule `gs` of gate openings. -/
 
-/-- the events of the chains of step `k` carry step number `k` -/
-theorem taskOf_events_step (c : SpecCfg) (pend : Pend) (k : Nat) (vals : List (Option Value)) (vis : List (String × Value))
-    (bc : Nat × List Value) : ∀ e ∈ (taskOf c pend k vals vis bc).allEvs, e.step = some k := by
-  intro e he
-  rw [taskOf_allEvs] at he
-  obtain ⟨ev, hev, rfl⟩ := List.mem_map.mp he
-  simp only [chainEvents, List.mem_append, List.mem_singleton, List.mem_map] at hev
-  rcases hev with (rfl | ⟨i, _, rfl⟩) | hev
-  · rfl
-  · rfl
-  · split at hev
-    · simp only [List.mem_singleton] at hev; subst hev; rfl
-    · cases hev
-
 /-- **A failed step aborts everything after it — async, every schedule.**  If, in step `k`, the block captures
     succeed and some active chain ends with a stopping output (a failure in a try macro, a panic in any async macro),
     then whatever gates are open at whatever polls: every event the future emits from here on belongs to step `k` (no
@@ -132,13 +118,29 @@ theorem failed_step_aborts_every_schedule (c : SpecCfg) (pend : Pend) (rem k : N
     (by
       intro t ht
       obtain ⟨bc', _, rfl⟩ := List.mem_map.mp ht
-      exact taskOf_events_step c pend k vals _ bc')
+      exact taskOf_step c pend k vals _ bc')
   refine ⟨h1, ?_⟩
   rcases h2 with ⟨ts', h2⟩ | ⟨a, h2, h3, h4⟩
   · left; rw [h2]; rfl
   · right
     refine ⟨a, h2, h3, ?_⟩
     simpa [List.map_map] using h4
+
+/-- … and once the future is polled with every gate open it *is* finished: with the failure of one of step `k`'s failing
+    chains, returned unchanged (`onStopOf`), or with the panic of one of them — under every schedule before that. -/
+theorem failed_step_result_every_schedule (c : SpecCfg) (pend : Pend) (rem k : Nat) (vals : List (Option Value))
+    (capss : List (List Value))
+    (hc : (specCapsAll c k (visibleSpec c.names vals) (c.active k)).res = .ok capss)
+    (bc : Nat × List Value) (hbc : bc ∈ (c.active k).zip capss)
+    (hstop : stopOf c (taskOf c pend k vals (visibleSpec c.names vals) bc).out = true)
+    {ρ' : Type} (kont : Res Fin → List MEv × Plan MEv (UR Value) ρ') (sm : Res Fin → ρ') (gs : List Gates) :
+    ∃ o, (((planLoop c pend rem k vals).2.bind kont sm).2.run (gs ++ [allOpen])).2 = .done (sm (onStopOf o)) ∧
+      stopOf c o = true ∧
+      o ∈ ((c.active k).zip capss).map (fun bc => (taskOf c pend k vals (visibleSpec c.names vals) bc).out) := by
+  obtain ⟨_, h⟩ := failed_step_aborts_every_schedule c pend rem k vals capss hc bc hbc hstop kont sm (gs ++ [allOpen])
+  rcases h with h | h
+  · rw [Plan.run_allOpen_done] at h; cases h
+  · exact h
 
 /-- the hypotheses are satisfiable: `try_join_async! { a, b ~=> f }` in a world where the first branch's initial
     expression fails — in step 0 the captures succeed and chain (0, 0) has a stopping output -/
